@@ -437,9 +437,27 @@ class Executor:
     def _reduction(self, s, st: State, fctx: FuncInfo):
         """the accumulation idiom   acc = set()/[]/0 ; for x in S: [if c:] acc.add(e) / acc.append(e) / acc += e
         is the comprehension  {e for x in S if c} / [e ...] / acc0 + sum(e ...): one canonical form for both"""
-        if not isinstance(s, ast.For) or s.orelse or len(s.body) != 1:
+        if not isinstance(s, ast.For) or s.orelse or not s.body:
             return None
-        b = s.body[0]
+        body = list(s.body)
+        # leading temporaries (name = pure expression) are inlined into the statement that follows
+        while len(body) > 1 and isinstance(body[0], ast.Assign) and len(body[0].targets) == 1 \
+                and isinstance(body[0].targets[0], ast.Name) and not any(
+                    isinstance(c, (ast.Call, ast.Yield, ast.YieldFrom, ast.NamedExpr)) and not (
+                        isinstance(c, ast.Call) and ((isinstance(c.func, ast.Name) and c.func.id in PURE_FUNCS) or
+                                                     (isinstance(c.func, ast.Attribute) and c.func.attr in PURE_METHODS)))
+                    for c in ast.walk(body[0].value)):
+            tmp, val = body[0].targets[0].id, body[0].value
+
+            class _In(ast.NodeTransformer):
+                def visit_Name(self, n):
+                    if n.id == tmp and isinstance(n.ctx, ast.Load):
+                        return copy.deepcopy(val)
+                    return n
+            body = [_In().visit(copy.deepcopy(x)) for x in body[1:]]
+        if len(body) != 1:
+            return None
+        b = body[0]
         conds = []
         while isinstance(b, ast.If) and not b.orelse and len(b.body) == 1:
             conds.append(b.test)
